@@ -264,6 +264,30 @@ type Signature[GE GroupElement[GE, S], S Scalar[S]] struct {
 	S S  `cbor:"s"`
 }
 
+// signatureDTO is the CBOR serialisation format for signatures.
+type signatureDTO[GE GroupElement[GE, S], S Scalar[S]] struct {
+	E S  `cbor:"e"`
+	R GE `cbor:"r"`
+	S S  `cbor:"s"`
+}
+
+// UnmarshalCBOR deserializes a signature from CBOR format and re-validates it through NewSignature.
+func (sig *Signature[GE, S]) UnmarshalCBOR(data []byte) error {
+	dto, err := serde.UnmarshalCBOR[*signatureDTO[GE, S]](data)
+	if err != nil {
+		return errs.Wrap(err).WithMessage("failed to unmarshal schnorrlike signature")
+	}
+	if dto == nil {
+		return signatures.ErrInvalidArgument.WithMessage("signature is nil")
+	}
+	sig2, err := NewSignature(dto.E, dto.R, dto.S)
+	if err != nil {
+		return errs.Wrap(err).WithMessage("failed to validate deserialized signature")
+	}
+	*sig = *sig2
+	return nil
+}
+
 // Equal returns true if two signatures have identical E, R, and S values.
 func (sig *Signature[GE, S]) Equal(other *Signature[GE, S]) bool {
 	if sig == nil || other == nil {
